@@ -5,6 +5,22 @@ ROOT = os.path.abspath(os.path.join(os.path.dirname(__file__), '..'))
 BUS_NOTE = ('Trusted: TLC + CommunityModules Json; the python raw-socket driver as recorder; ASan/UBSan build of the working tree. '
             'Conformance is sampled (generated scenarios), the closed model is exhaustive for its small constants only.')
 CHECKS = {
+ 'C03': dict(tech='TLA+ spec Bus.tla: TLC BFS of BusMC (C03.cfg: SenderIsOrigin, UniqueNeverReused ...) + TLC trace validation of real dbus-daemon runs with forged headers',
+             text='Every message the model stages carries a ghost origin; TLC checks on the closed model that sender = origin and unique names are never reused, and each recorded round of the '
+                  'real daemon (forged SENDER, unknown fields 11..255, CONTAINER_INSTANCE, Hello histories) must equal what the model stages: sender bytes, absence of unknown fields, freshness of every name.',
+             ref='3/C03'),
+ 'C05': dict(tech='TLA+ spec Bus.tla: TLC BFS of BusMC (C05.cfg: UnicastToOwnerOnly, AtMostOneCopy, ErrorXorDelivery) + TLC trace validation with TLC choosing the interleaving of concurrent writers',
+             text='Routing of a message with a destination is one TLA+ action; acceptance of a recorded round means some serial order of the concurrent clients explains every inbox exactly '
+                  '(once, to the owner at that moment, in per-sender order, or exactly one error with the serial).', ref='3/C05'),
+ 'C07': dict(tech='TLA+ spec Bus.tla + MatchOps.tla (rule parser and matcher over bytes): TLC BFS of BusMC (C07.cfg: BroadcastOnlyToMatching) + TLC trace validation of AddMatch/RemoveMatch/signal histories',
+             text='The match-rule grammar, equality and matching semantics are TLA+ operators evaluated by TLC on the very bytes sent to the daemon; every delivery or non-delivery of every '
+                  'broadcast in the recorded rounds must be what the operators say; the daemon runs under ASan/UBSan so memory errors end the trace.', ref='3/C07'),
+ 'C09': dict(tech='TLA+ spec Bus.tla (pending-reply table, Gate, ExpirePending) + PolicyOps.tla: TLC BFS (C09.cfg: SlotOnlyForDeliveredCall, NoReplyOnlyOnExpiry) + trace validation under a requested-reply-only policy with finite reply_timeout',
+             text='Pending replies are explicit model state; replies pass the policy operators only when a slot exists; expiry is a silent action with one-sided timing rules (may-expire / must-have-expired windows measured by the driver).',
+             ref='3/C09'),
+ 'C13': dict(tech='TLA+ spec Bus.tla with limits as configuration: TLC BFS (C13.cfg: *WithinLimit invariants, RefusalChangesNothing) + trace validation with all limits 1-3 and three uids',
+             text='Limits are constants of the model; each guarded action has a LimitsExceeded branch that leaves the state unchanged; recorded rounds of the daemon configured with tiny limits must follow exactly.',
+             ref='3/C13'),
  'C04': dict(tech='TLA+ spec Bus.tla: TLC BFS of BusMC (C04.cfg) + TLC trace validation of real dbus-daemon runs (BusTrace)',
              text='Name-ownership decision table, signals and queries are one TLA+ state machine; TLC proves the invariants and action properties on all '
                   'interleavings of 3 connections x 1-2 names x 8 flag values, and every recorded round of the real daemon (random concurrent histories + '
